@@ -362,6 +362,13 @@ pub fn special_ext_tasks() -> Vec<ExtTask> {
         mk("out(X) :- in(X), n != a.", false, "out(X) :- in(X).", "input: in/1. output: out/1. input: n.", ""),
         mk("out(X) :- in(X), n = m.", false, "out(X) :- in(X), m = n.", "input: in/1. output: out/1. input: n -> integer. input: m -> integer.", ""),
         mk("spec: p <-> n$i = 0.", true, "p :- n = 0.", "input: n -> integer. output: p/0.", ""),
+        // proof outlines in which an inductive lemma (two obligations) is followed by further lemmas
+        mk("out(X) :- in(X), X >= 0.", false, "out(X) :- in(X), X > -1.", "input: in/1. output: out/1.",
+           "inductive-lemma(forward)[il]: forall N$i (N$i >= 0 -> (in(N$i) -> out(N$i))). lemma(forward)[l1]: forall X (out(X) -> in(X)). inductive-lemma(backward)[ib]: forall N$i (N$i >= 0 -> (in(N$i) -> out(N$i))). lemma(backward)[l2]: forall X (out(X) -> in(X)). lemma[l3]: forall X (out(X) -> X >= 0)."),
+        // private cycles of mixed sign (refused on a correct tree)
+        mk("a :- b. b :- not a. out(X) :- in(X), a.", false, "out(X) :- in(X).", "input: in/1. output: out/1.", ""),
+        mk("out(X) :- in(X).", false, "aux(X) :- in(X), not aux2(X). aux2(X) :- aux(X). out(X) :- in(X), not aux2(X).", "input: in/1. output: out/1.", ""),
+        mk("c :- not a. a :- b. b :- not a. p :- c.", false, "p.", "output: p/0.", ""),
         // one symbol at several arities with different visibility (private/public/input), clashing private copies on both sides
         mk("q(X) :- in(X). q(X,X) :- q(X).", false, "q(X) :- in(X). q(X,X) :- q(X).", "input: in/1. output: q/2.", ""),
         mk("q(X) :- in(X), X > 0. q(X,X) :- q(X).", false, "q(X) :- in(X). q(X,X) :- q(X), X > 0.", "input: in/1. output: q/2.", ""),
